@@ -9,5 +9,17 @@ for f in sorted(glob.glob('/verif/evidence/*.json')):
     except Exception as e:
         bad += 1
         print("INVALID", f, str(e)[:300])
+man = json.load(open('/verif/MANIFEST.json'))
+for c in man['checks']:
+    pid = c['property_id']
+    try:
+        ev = json.load(open('/verif/evidence/%s.json' % pid))
+    except Exception as e:
+        bad += 1; print("MISSING evidence for", pid); continue
+    lvl = c.get('level_claimed', {}).get('category') if isinstance(c.get('level_claimed'), dict) else c.get('level_claimed')
+    if ev.get('level') != lvl:
+        bad += 1; print("LEVEL MISMATCH", pid, "manifest", lvl, "evidence", ev.get('level'))
+    if ev.get('property_id', pid) != pid:
+        bad += 1; print("ID MISMATCH", pid)
 print("manifest ok; evidence files:", len(glob.glob('/verif/evidence/*.json')), "invalid:", bad)
 sys.exit(1 if bad else 0)
